@@ -25,7 +25,7 @@ TECHNIQUE = ("model-based (stateful) testing: histories of flow_mods, packets, v
              "requests run against the switch and an independent OpenFlow 1.0 table model in lock-step; exhaustive short "
              "histories over a reduced alphabet plus Hypothesis-generated long ones")
 LEVEL_TEXT = ("Exploration by generated histories. Every history of length <= 2 (quick) / <= 3 (thorough) over a reduced alphabet "
-              "of 32 operations and of length 3 / 4 over its 14-op core is enumerated, with and without the ExpireMixin timer; Hypothesis adds histories of up to 40 / 60 "
+              "of 36 operations and of length 3 / 4 over its 16-op core is enumerated, with and without the ExpireMixin timer; Hypothesis adds histories of up to 40 / 60 "
               "operations over the full alphabet. After every step the table (contents, counters, order) and every message sent "
               "are compared with the reference model under a virtual clock with dyadic instants, so there is no tolerance. The "
               "space of histories is infinite: this is dense search, not a proof.")
@@ -33,12 +33,16 @@ LEVEL_NOTE = ("trusts pvf/ref/of10_table and of10_match as the reading of OpenFl
               "leaves open (equal-priority ties, cookie on MODIFY, the reason when both timeouts expired, removal exactly at the "
               "timeout instant, what a switch without emergency table answers) are accepted either way and followed")
 RULE = ("a case is a list of op records (flow_mod / packet / advance / sweep / stats) plus switch options (ExpireMixin timer on or "
-        "off, max_entries); matches come from a lattice of 12 overlapping wildcarded matches. Non-trivial: the history contains a "
+        "off, max_entries); matches come from a lattice of 12 overlapping wildcarded matches plus 3 exact-match ones. Non-trivial: the history contains a "
         "non-strict MODIFY or DELETE that hits >= 1 and misses >= 1 installed entry, or a timeout removal, or a replace-on-ADD. "
         "Distinct by SHA-1 of the canonical JSON of the case")
 ASSUMPTIONS = [
-  "matches are wildcarded (no exact-match entries: their interplay with priorities under strict commands is not specified) and "
-  "carry canonical values (no bits beyond the prefix), so 'identical match' is unambiguous",
+  "matches carry canonical values (no bits beyond the prefix), so 'identical match' is unambiguous; the three exact-match "
+  "(wildcards == 0) matches are each used with one fixed priority field (0, 0xffff, 2), because what an identical exact match "
+  "with a different priority field means under ADD / strict commands is not specified",
+  "an exact-match entry outranks every wildcarded one in lookup whatever its priority field (section 3.4); under CHECK_OVERLAP "
+  "an exact-match and a wildcarded entry with equal priority fields may or may not count as 'the same priority' (either verdict "
+  "accepted and followed), but two wildcarded entries of equal priority that overlap must be refused whatever else is in the table",
   "EMERG is only sent with ADD; a switch without an emergency table may answer any OFPET_FLOW_MOD_FAILED error, but an EMERG add "
   "with a non-zero timeout must be refused with OFPFMFC_BAD_EMERG_TIMEOUT",
   "MODIFY changes the actions only; whether it updates the cookie is not specified (either accepted)",
@@ -50,10 +54,10 @@ ASSUMPTIONS = [
   "frames are well formed; byte counters count the bytes of the frame as received",
 ]
 EXHAUSTIVE_SCOPE = {
-  "quick": "all histories of length 1 and 2 over the reduced alphabet (32 ops: 9 ADD variants, 4 MODIFY / MODIFY_STRICT, 6 DELETE / DELETE_STRICT, "
-           "3 packets, 5 advances, a direct sweep, 4 stats requests) and all histories of length 3 over its 14-op core, "
+  "quick": "all histories of length 1 and 2 over the reduced alphabet (36 ops: 12 ADD variants, 4 MODIFY / MODIFY_STRICT, 7 DELETE / DELETE_STRICT, "
+           "3 packets, 5 advances, a direct sweep, 4 stats requests) and all histories of length 3 over its 16-op core, "
            "each x {timer off, ExpireMixin timer on}",
-  "thorough": "all histories of length <= 3 over the same alphabet and all histories of length 4 over its 14-op core, each x {timer off, timer on}",
+  "thorough": "all histories of length <= 3 over the same alphabet and all histories of length 4 over its 16-op core, each x {timer off, timer on}",
 }
 
 _BOOTED = False
@@ -108,8 +112,6 @@ LATTICE = [
   _m(in_port=2),                                                             # 10
   _m(dl_type=0x0800, nw_dst=(0x0a020000, 16)),                               # 11
 ]
-LATTICE_RAW = [M.pack_match(m) for m in LATTICE]
-
 FRAMES = [
   {"l3": "ip", "l4": "tcp", "src": _MAC_A, "ip_src": 0x0a010203, "ip_dst": 0x0a020001, "sport": 1025, "dport": 80, "pay": 10},
   {"l3": "ip", "l4": "udp", "src": 0x020000000002, "ip_src": 0x0a090909, "ip_dst": 0x0a030001, "sport": 53, "dport": 53, "pay": 20},
@@ -118,6 +120,20 @@ FRAMES = [
   {"l3": "raw", "src": 0x020000000004, "etype": 0x88b5, "pay": 46},
 ]
 FRAMES_RAW = [FS.mkframe(s) for s in FRAMES]
+
+
+def _exact(frame, in_port):
+  f = M.extract(frame, in_port)
+  return M.make_match(0, **{k: f[k] for k in M.MATCH_FIELDS})
+
+
+# fully specified (wire-exact) matches: what a reactive controller installs for a packet.  Each has ONE
+# priority field (what "identical match, different priority field" means for exact entries is not
+# specified): below every wildcarded priority, above every one, and equal to one of them.
+N_WILD = len(LATTICE)
+LATTICE += [_exact(FRAMES_RAW[0], 1), _exact(FRAMES_RAW[1], 2), _exact(FRAMES_RAW[3], 1)]      # 12, 13, 14
+EXACT_PRIO = {12: 0, 13: 0xffff, 14: 2}
+LATTICE_RAW = [M.pack_match(m) for m in LATTICE]
 
 ACTS = [[4], [5], [6], [7], [4, 5], []]            # output ports of the action list
 N_PORTS = 8
@@ -164,11 +180,15 @@ REDUCED = [
   {"op": "stats", "agg": False, "m": 2, "out_port": 5},
   {"op": "stats", "agg": True, "m": 0, "out_port": W.OFPP_NONE},
   {"op": "stats", "agg": True, "m": 3, "out_port": 4},
+  _fm(0, 12, 0, flags=SFR, act=2),
+  _fm(0, 13, 0xffff, idle=2, act=3),
+  _fm(0, 14, 2, flags=CHK, act=2),
+  _fm(4, 12, 0),
 ]
 
 
 # the core of the alphabet, for exhaustive histories of length 3 in the quick tier
-CORE = [REDUCED[i] for i in (0, 1, 2, 9, 11, 13, 16, 17, 19, 24, 25, 26, 27, 28)]
+CORE = [REDUCED[i] for i in (0, 1, 2, 6, 9, 11, 13, 16, 17, 19, 24, 25, 26, 27, 28, 32)]
 
 
 # --------------------------------------------------------------------------- observing the switch
@@ -205,7 +225,7 @@ def _observe(sw):
         outs.append(("other", getattr(a, "type", None)))
     rows.append({"key": (M.canon(m), te.priority), "priority": te.priority, "idle": te.idle_timeout, "hard": te.hard_timeout,
                  "cookie": te.cookie, "flags": te.flags, "packets": te.packet_count, "bytes": te.byte_count, "outs": outs,
-                 "eff": te.effective_priority})
+                 "eff": T.INF if M.is_exact_semantic(m) else te.priority})
   return rows
 
 
@@ -342,6 +362,9 @@ class _Run(object):
     actions = b"".join(W.action_output(p) for p in acts)
     self.xid += 1
     cookie = 0x1000 + self.step
+    if mi in EXACT_PRIO:
+      op = dict(op, prio=EXACT_PRIO[mi])
+      self.out.label("fm-exact-match")
     fm = {"command": cmd, "match": LATTICE[mi], "priority": op["prio"], "idle": op["idle"], "hard": op["hard"],
           "cookie": cookie, "flags": flags, "out_port": op["out_port"], "actions": actions, "xid": self.xid}
     self.ctx = "%s m%d prio %d idle %d hard %d flags %d out_port %#x acts %r" % (
@@ -354,7 +377,14 @@ class _Run(object):
         self.out.nontrivial = True
         self.out.label("nonstrict-hits-and-misses")
     had_identical = (M.canon(LATTICE[mi]), op["prio"]) in before
-    expected = self.ref.flow_mod(self.sw.now, fm)
+    self.sw.send(W.flow_mod(LATTICE_RAW[mi], cmd, priority=op["prio"], idle=op["idle"], hard=op["hard"], cookie=cookie,
+                            flags=flags, out_port=op["out_port"], actions=actions, xid=self.xid))
+    self.check_swallowed()
+    got = self.sw.replies()
+    refused = any(g.get("kind") == "error" and g["etype"] == W.OFPET_FLOW_MOD_FAILED and g["code"] == W.OFPFMFC_OVERLAP for g in got)
+    expected = self.ref.flow_mod(self.sw.now, fm, refused=refused)
+    if expected and expected[0].get("detail") == "exact-vs-wildcard":
+      self.out.label("overlap-exact-vs-wildcard-refused")
     after = self.ref.by_key()
     # labels
     self.out.label("fm-" + name)
@@ -376,10 +406,8 @@ class _Run(object):
       self.out.label("notify-on-delete")
     if cmd in (3, 4) and len(after) < len(before) and not expected:
       self.out.label("delete-without-notify")
-    self.sw.send(W.flow_mod(LATTICE_RAW[mi], cmd, priority=op["prio"], idle=op["idle"], hard=op["hard"], cookie=cookie,
-                            flags=flags, out_port=op["out_port"], actions=actions, xid=self.xid))
-    self.check_swallowed()
-    got = self.sw.replies()
+    if (flags & CHK) and any(M.is_exact(e.match) for e in before.values()):
+      self.out.label("check-overlap-with-exact-entries-present")
     if expected and expected[0].get("detail") == "partial" and not any(g.get("kind") == "error" for g in got):
       # the switch did not refuse a partially overlapping entry: record it and keep following the switch,
       # so that the rest of the history is still explored
@@ -422,6 +450,8 @@ class _Run(object):
         self.fail("packet-wrong-entry", "entry %s took the packet, the best matching entries are %r" % (
             _kname(k), [_kname(e.key) for e in cands]))
       e = hit[0]
+      if M.is_exact(e.match) and any(M.matches(x.match, M.extract(frame, port)) for x in self.ref.entries if x is not e):
+        self.out.label("pkt-exact-outranks-wildcard")
       if e.idle:
         self.out.label("pkt-refreshes-idle")
       self.ref.touch(e, len(frame), self.sw.now)
@@ -595,7 +625,7 @@ def enum_histories(maxlen, alphabet=None, minlen=1):
 # --------------------------------------------------------------------------- Hypothesis
 
 _prio = st.sampled_from([1, 1, 2, 2, 0x8000])
-_mi = st.sampled_from([2, 3, 4, 8, 2, 3, 4, 8, 0, 1, 5, 6, 7, 9, 10, 11])
+_mi = st.sampled_from([2, 3, 4, 8, 2, 3, 4, 8, 0, 1, 5, 6, 7, 9, 10, 11, 12, 12, 13, 14])
 _flags = st.sampled_from([0, 0, SFR, SFR, CHK, SFR | CHK, EMG, EMG | SFR])
 _outp = st.sampled_from([W.OFPP_NONE, W.OFPP_NONE, W.OFPP_NONE, 4, 5, 6])
 
@@ -615,7 +645,7 @@ def _op(draw):
     return {"op": "adv", "dt8": draw(st.sampled_from([1, 3, 8, 9, 15, 16, 17, 24, 32, 64]))}
   if k == "sweep":
     return {"op": "sweep"}
-  return {"op": "stats", "agg": draw(st.booleans()), "m": draw(st.sampled_from([0, 0, 2, 3, 1])), "out_port": draw(_outp)}
+  return {"op": "stats", "agg": draw(st.booleans()), "m": draw(st.sampled_from([0, 0, 2, 3, 1, 12])), "out_port": draw(_outp)}
 
 
 def _history(maxlen):
